@@ -279,6 +279,11 @@ func (wg *WeightedAuthorizationModelGraph) calculateNodeWeight(nodeID string, vi
 func (wg *WeightedAuthorizationModelGraph) calculateEdgeWeight(edge *WeightedAuthorizationModelEdge, ancestorPath []*WeightedAuthorizationModelEdge, visited map[string]bool, tupleCycleDependencies map[string][]*WeightedAuthorizationModelEdge) ([]string, error) {
 	// if it is a recursive edge, we need to set the weight to infinite and add the edge to the tuple cycle dependencies
 	if edge.from.uniqueLabel == edge.to.uniqueLabel {
+		// a relation that rewrites to itself needs no tuple to come back: that is a model cycle
+		if edge.edgeType != TTUEdge && edge.edgeType != DirectEdge {
+			return nil, ErrModelCycle
+		}
+
 		edge.weights = make(map[string]int)
 		edge.weights["R#"+edge.to.uniqueLabel] = Infinite
 		tupleCycleDependencies[edge.to.uniqueLabel] = append(tupleCycleDependencies[edge.to.uniqueLabel], edge)
